@@ -194,6 +194,44 @@ by rewrite cjM.
 Qed.
 End Renumber.
 
+(* ------------------------------------------------------------------ column systems (UE14, E12) *)
+Section Columns.
+Variables (n : nat) (S A B : 'M[F]_n).
+
+(* fill_ue14 / fill_e12 build A and B column by column from independent systems: if every column
+   satisfies its own equation B(:,c) = S A(:,c), then B A^-1 = S.  Scaling a column of A and B by a
+   non-zero factor (E12 vs UE14 terms) does not change the hypothesis. *)
+Lemma apply_recovers_columns :
+  (forall c, col c B = S *m col c A) -> A \in unitmx -> B *m invmx A = S.
+Proof.
+move=> H UA.
+have -> : B = S *m A.
+  apply/matrixP=> i j; move: (H j) => /matrixP /(_ i ord0).
+  rewrite !mxE => ->; apply: eq_bigr => k _; by rewrite mxE.
+by rewrite mulmxK.
+Qed.
+
+Lemma column_scaling (c : 'I_n) (k : F) :
+  col c B = S *m col c A -> k *: col c B = S *m (k *: col c A).
+Proof. by move=> ->; rewrite -scalemxAr. Qed.
+End Columns.
+
+(* ------------------------------------------------------------------ 1x2 / 2x1 calibrations *)
+Section Flip.
+Variables (n : nat) (P S : 'M[F]_n).
+
+(* the second row (column) of the 2x2 matrix handed to apply is measured with the DUT turned round,
+   S' = P S P with P the exchange of the ports (P P = 1): its equation, with the columns (rows) of its
+   coefficients exchanged, is an equation for S itself *)
+Lemma flipped_row (a b : 'rV[F]_n) :
+  P *m P = 1%:M -> a *m (P *m S *m P) = b -> (a *m P) *m S = b *m P.
+Proof. by move=> PP <-; rewrite !mulmxA -(mulmxA _ P P) PP mulmx1. Qed.
+
+Lemma flipped_col (a b : 'cV[F]_n) :
+  P *m P = 1%:M -> (P *m S *m P) *m a = b -> S *m (P *m a) = P *m b.
+Proof. by move=> PP <-; rewrite !mulmxA PP mul1mx. Qed.
+End Flip.
+
 (* ------------------------------------------------------------------ the hypotheses are satisfiable *)
 Section Satisfiable.
 Variables (n : nat) (S : 'M[F]_n).
